@@ -6,6 +6,7 @@ use std::io::Read;
 
 mod witnesses;
 mod bounded;
+mod hostile;
 
 // Allocation cap for the hostile-input child processes: a single allocation request above ALLOC_CAP fails (-> Rust aborts with
 // "memory allocation of N bytes failed").  This makes "a few hundred input bytes ask for more than 1 GiB" a deterministic
@@ -46,6 +47,12 @@ fn main() {
     }
     let _ = (&tier, seed);
     let r = match name {
+        n if n.starts_with("child-file-") => {
+            let cur = args.iter().position(|a| a == "--cur").map(|i| args[i + 1].clone()).unwrap_or_else(|| "/dev/null".into());
+            let start = args.iter().position(|a| a == "--start").and_then(|i| args[i + 1].parse().ok()).unwrap_or(0usize);
+            ALLOC_CAP.store(1 << 30, std::sync::atomic::Ordering::Relaxed);
+            hostile::child(&n[11..], &tier, &cur, start); std::process::exit(0)
+        }
         n if n.starts_with("child-dec-") => {
             let cur = args.iter().position(|a| a == "--cur").map(|i| args[i + 1].clone()).unwrap_or_else(|| "/dev/null".into());
             let start = args.iter().position(|a| a == "--start").and_then(|i| args[i + 1].parse().ok()).unwrap_or(0usize);
